@@ -104,11 +104,15 @@ def oracle_pca(ck, rng):
         pattern = rng.normal(size=shape).astype(np.float32) * 3
         grp = rng.integers(0, 2, size=N)
         X = X + grp[:, None, None, None] * pattern
-        mask = None if i % 2 else (rng.random(shape) > 0.3).astype(np.float32)
+        mask = None if i % 3 == 0 else (rng.random(shape) > 0.3).astype(np.float32)
+        if i % 3 == 2:
+            # soft-edged mask: values strictly between 0 and 1 where the images vary
+            from scipy import ndimage as ndi
+            mask = np.clip(ndi.gaussian_filter(mask, 0.8), 0.02, 1.0).astype(np.float32)
         chs = [None, (max(1, N // 3),) + shape, (N,) + shape, (5, max(1, shape[0] // 2), shape[1], shape[2]), (7, shape[0], shape[1], 2)]
         ch = chs[i % len(chs)]
         stack = X if ch is None else da.from_array(X, chunks=ch)
-        c = dict(N=N, shape=shape, n_components=k, mask=mask is not None, chunks=ch, seed=ck.seed, i=i)
+        c = dict(N=N, shape=shape, n_components=k, mask=["none", "binary", "soft"][i % 3], chunks=ch, seed=ck.seed, i=i)
         fails = []
         try:
             clf = PcaClassifier(stack, mask, n_components=k, n_clusters=2, seed=0).run()
